@@ -1,9 +1,532 @@
 /-
-  QEModel.C07 — executable model for property C07 (stub; to be filled in).
--/
-import QEModel.Base
-namespace QE.C07
+  QEModel.C07 — linear-quadratic control (quantecon/_lqcontrol.py and the solvers derived
+  from it: _robustlq.py, _lqnash.py, _matrix_eqn.py:solve_discrete_riccati_system).
 
-def handle (_toks : List String) : String := "bad-op"
+  Mirrors
+  * `LQ.update_values`, _lqcontrol.py 184-198: `lqS1/lqS2/lqS3` (lines 188-190), `lqUpdate`
+    (`F = solve(S1,S2)` line 192, `new_P = R - S2'F + S3` line 194,
+    `new_d = beta*(d + trace(P C C'))` line 196).
+  * `LQ.stationary_values`, lines 234-255: `lqStationary` — the Riccati solver
+    (`solve_discrete_riccati`, property C06) is a *parameter*: its result `P` is an argument;
+    `F` (lines 242-244) and `d` (lines 247-250) are computed from it.
+  * `LQ.compute_sequence`, lines 296-338: `horizon` (lines 300-306), `lqBackward` (the loop
+    `for t in range(T): update_values(); policies.append(F)`, lines 320-324), `pop?`
+    (`policies.pop()`), `simLoop`/`simulate` (lines 327-336), `computeSequence`
+    (finite horizon), `computeSequenceInf` (infinite horizon: `T` copies of the stationary `F`).
+    The shocks `w_path` (Gaussian draws, line 316) are an input.
+  * `RBLQ.d_operator` / `b_operator`, _robustlq.py 108-115 / 144-152: `rblqD`, `rblqB`;
+    `robust_rule_simple`'s final `K` (lines 255-258): `rblqK`; the stacked LQ problem of
+    `robust_rule` (lines 190-209): `rblqStack`.
+  * one pass of the `nnash` loop, _lqnash.py 111-135: `nnashStep`.
+  * one pass of `solve_discrete_riccati_system`, _matrix_eqn.py 295-306: `markovStep`; the
+    per-regime `F`, `d` of `LQMarkov.stationary_values`, _lqcontrol.py 526-542: `markovF`,
+    `markovX` (the matrix `X[j,i] = trace(P_j C_i C_i')`) and `markovD`.
+  `scipy.linalg.solve` / `inv` are the parameter `sol`; the driver instantiates it with the
+  exact Gauss–Jordan `MatAlg.solve` (at `Rat`: exact reference; at `Float`: same loop in doubles).
+-/
+import QEModel.MatAlg
+namespace QE.C07
+open QE QE.MatAlg
+
+section generic
+variable {α : Type} [Zero α] [One α] [Add α] [Sub α] [Mul α] [Div α] [Neg α] [BEq α]
+
+/-- the data of an `LQ` instance (`C = 0`, `N = 0` when not given) -/
+structure LQ (α : Type) where
+  Q : M α
+  R : M α
+  A : M α
+  B : M α
+  C : M α
+  N : M α
+  beta : α
+
+/-- the value function `x'Px + d` -/
+structure Val (α : Type) where
+  P : M α
+  d : α
+
+/-! ### update_values -/
+
+/-- line 188: `S1 = Q + beta * B'(P B)` -/
+def lqS1 (lq : LQ α) (P : M α) : M α := madd lq.Q (smul lq.beta (mmul (mT lq.B) (mmul P lq.B)))
+/-- line 189: `S2 = beta * B'(P A) + N` -/
+def lqS2 (lq : LQ α) (P : M α) : M α := madd (smul lq.beta (mmul (mT lq.B) (mmul P lq.A))) lq.N
+/-- line 190: `S3 = beta * A'(P A)` -/
+def lqS3 (lq : LQ α) (P : M α) : M α := smul lq.beta (mmul (mT lq.A) (mmul P lq.A))
+
+/-- line 194 -/
+def lqNewP (lq : LQ α) (P F : M α) : M α := madd (msub lq.R (mmul (mT (lqS2 lq P)) F)) (lqS3 lq P)
+/-- line 196 -/
+def lqNewD (lq : LQ α) (v : Val α) : α := lq.beta * (v.d + trace (mmul v.P (mmul lq.C (mT lq.C))))
+
+/-- `update_values`: returns the new `F` and the new `(P, d)`; `none` = `solve` raised -/
+def lqUpdate (sol : M α → M α → Option (M α)) (lq : LQ α) (v : Val α) : Option (M α × Val α) :=
+  match sol (lqS1 lq v.P) (lqS2 lq v.P) with
+  | none => none
+  | some F => some (F, ⟨lqNewP lq v.P F, lqNewD lq v⟩)
+
+/-- lines 320-324 in the finite-horizon case: `T` passes of
+    `update_values(); policies.append(self.F)`; returns the list in append order and the final value -/
+def lqBackward (sol : M α → M α → Option (M α)) (lq : LQ α) : Nat → Val α → List (M α) → Option (List (M α) × Val α)
+  | 0, v, pol => some (pol, v)
+  | T + 1, v, pol =>
+    match lqUpdate sol lq v with
+    | none => none
+    | some (F, v') => lqBackward sol lq T v' (pol ++ [F])
+
+/-- the whole state machine: `(F, P, d)` after each of `T` calls of `update_values` -/
+def lqTrace (sol : M α → M α → Option (M α)) (lq : LQ α) : Nat → Val α → Option (List (M α × Val α))
+  | 0, _ => some []
+  | T + 1, v =>
+    match lqUpdate sol lq v with
+    | none => none
+    | some (F, v') => (lqTrace sol lq T v').map ((F, v') :: ·)
+
+/-! ### stationary_values -/
+
+/-- lines 247-250 -/
+def lqStatD (lq : LQ α) (P : M α) : α :=
+  if lq.beta == 1 then 0 else lq.beta * trace (mmul P (mmul lq.C (mT lq.C))) / (1 - lq.beta)
+
+/-- lines 242-250 for the `P` returned by the Riccati solver -/
+def lqStationary (sol : M α → M α → Option (M α)) (lq : LQ α) (P : M α) : Option (M α × α) :=
+  match sol (lqS1 lq P) (lqS2 lq P) with
+  | none => none
+  | some F => some (F, lqStatD lq P)
+
+/-! ### compute_sequence -/
+
+/-- lines 300-306; Python's falsy `None`/`0` is `0` here -/
+def horizon (Tfin ts : Nat) : Nat :=
+  if Tfin ≠ 0 then (if ts = 0 then Tfin else min ts Tfin) else (if ts ≠ 0 then ts else 100)
+
+/-- `list.pop()`: the last element and the rest (`none` = IndexError) -/
+def pop? {β : Type} (l : List β) : Option (β × List β) :=
+  match l.reverse with
+  | [] => none
+  | a :: r => some (a, r.reverse)
+
+/-- column `t` of a matrix as an `nr × 1` matrix -/
+def col (X : M α) (t : Nat) : M α := M.tab X.nr 1 fun i _ => X.get i t
+
+/-- line 332-333 / 335-336: `A x + B u + Cw[:, t]` -/
+def nextX (A B : M α) (x u cw : M α) : M α := madd (madd (mmul A x) (mmul B u)) cw
+/-- line 329 / 334: `- F x` -/
+def ctrl (F x : M α) : M α := mneg (mmul F x)
+
+/-- lines 330-336. Entered with `x = x_{t-1}`, `u = u_{t-1}`, `t` the loop index and `rem`
+    passes of `for t in range(1, T)` left; after the loop the final state `x_T` is appended.
+    Returns `(x_{t-1} … x_T, u_{t-1} … u_{T-1})`. -/
+def simLoop (A B : M α) (cw : Nat → M α) : Nat → Nat → List (M α) → M α → M α → Option (List (M α) × List (M α))
+  | 0, t, _, x, u => some ([x, nextX A B x u (cw t)], [u])
+  | rem + 1, t, pol, x, u =>
+    match pop? pol with
+    | none => none
+    | some (F, pol') =>
+      let x' := nextX A B x u (cw t)
+      match simLoop A B cw rem (t + 1) pol' x' (ctrl F x') with
+      | none => none
+      | some (xs, us) => some (x :: xs, u :: us)
+
+/-- lines 317, 327-336 for a given list of policies (in append order) -/
+def simulate (lq : LQ α) (pol : List (M α)) (T : Nat) (x0 W : M α) : Option (List (M α) × List (M α)) :=
+  let CW := mmul lq.C W
+  match pop? pol with
+  | none => none
+  | some (F, pol') => simLoop lq.A lq.B (col CW) (T - 1) 1 pol' x0 (ctrl F x0)
+
+inductive SeqOut (α : Type) where
+  | ok (xs us : List (M α))
+  /-- `solve` raised inside `update_values` -/
+  | singular
+  /-- `policies.pop()` on an empty list -/
+  | indexError
+
+/-- `compute_sequence` of a finite-horizon instance (`self.T = Tfin ≠ 0`, terminal `Rf`) -/
+def computeSequence (sol : M α → M α → Option (M α)) (lq : LQ α) (Rf : M α) (Tfin ts : Nat)
+    (x0 W : M α) : SeqOut α :=
+  let T := horizon Tfin ts
+  match lqBackward sol lq T ⟨Rf, 0⟩ [] with
+  | none => .singular
+  | some (pol, _) =>
+    match simulate lq pol T x0 W with
+    | none => .indexError
+    | some (xs, us) => .ok xs us
+
+/-- `compute_sequence` of an infinite-horizon instance whose stationary policy is `F` -/
+def computeSequenceInf (lq : LQ α) (F : M α) (ts : Nat) (x0 W : M α) : SeqOut α :=
+  let T := horizon 0 ts
+  match simulate lq (List.replicate T F) T x0 W with
+  | none => .indexError
+  | some (xs, us) => .ok xs us
+
+/-! ### RBLQ -/
+
+/-- `d_operator`, _robustlq.py 108-115 -/
+def rblqD (sol : M α → M α → Option (M α)) (C : M α) (theta : α) (P : M α) : Option (M α) :=
+  let S1 := mmul P C
+  let S2 := mmul (mT C) S1
+  match sol (msub (smul theta (ident C.nc)) S2) (mT S1) with
+  | none => none
+  | some X => some (madd P (mmul S1 X))
+
+/-- `b_operator`, _robustlq.py 144-152 (`pure` = `self.pure_forecasting`) -/
+def rblqB (sol : M α → M α → Option (M α)) (lq : LQ α) (pure : Bool) (P : M α) : Option (M α × M α) :=
+  let S1 := madd lq.Q (smul lq.beta (mmul (mT lq.B) (mmul P lq.B)))
+  let S2 := smul lq.beta (mmul (mT lq.B) (mmul P lq.A))
+  let S3 := smul lq.beta (mmul (mT lq.A) (mmul P lq.A))
+  let Fo := if pure then some (zero lq.Q.nr lq.R.nr) else sol S1 S2
+  match Fo with
+  | none => none
+  | some F => some (F, madd (msub lq.R (mmul (mT S2) F)) S3)
+
+/-- one pass of the loop of `robust_rule_simple` (line 251): `b_operator(d_operator(P))` -/
+def rblqStep (sol : M α → M α → Option (M α)) (lq : LQ α) (theta : α) (pure : Bool) (P : M α) :
+    Option (M α × M α) :=
+  match rblqD sol lq.C theta P with
+  | none => none
+  | some D => rblqB sol lq pure D
+
+/-- lines 255-258: `K = inv(theta I - C'PC) (PC)' (A - B F)` -/
+def rblqK (sol : M α → M α → Option (M α)) (lq : LQ α) (theta : α) (P F : M α) : Option (M α) :=
+  let S1 := mmul P lq.C
+  let S2 := mmul (mT lq.C) S1
+  let W := msub (smul theta (ident lq.C.nc)) S2
+  match sol W (ident lq.C.nc) with
+  | none => none
+  | some Wi => some (mmul (mmul Wi (mT S1)) (msub lq.A (mmul lq.B F)))
+
+/-- vertical block `[A ; B]` -/
+def vcat (A B : M α) : M α :=
+  M.tab (A.nr + B.nr) A.nc fun i j => if i < A.nr then A.get i j else B.get (i - A.nr) j
+
+/-- lines 202-204: the stacked problem `LQ(Qa, R, A, Ba, beta)` with `Ba = [B C]`,
+    `Qa = [[Q, 0], [0, -beta*theta*I]]` -/
+def rblqStack (lq : LQ α) (theta : α) : LQ α :=
+  let k := lq.Q.nr
+  let j := lq.C.nc
+  let Qa := vcat (hcat lq.Q (zero k j))
+    (hcat (zero j k) (M.tab j j fun a b => (-lq.beta) * (if a = b then 1 else 0) * theta))
+  ⟨Qa, lq.R, lq.A, hcat lq.B lq.C, zero lq.R.nr 1, zero (k + j) lq.R.nr, lq.beta⟩
+
+/-! ### nnash: one pass of the loop (lines 111-135); `A, B1, B2` already scaled by `sqrt(beta)` -/
+
+structure Nash (α : Type) where
+  A : M α
+  B1 : M α
+  B2 : M α
+  R1 : M α
+  R2 : M α
+  Q1 : M α
+  Q2 : M α
+  S1 : M α
+  S2 : M α
+  W1 : M α
+  W2 : M α
+  M1 : M α
+  M2 : M α
+
+structure NashState (α : Type) where
+  F1 : M α
+  F2 : M α
+  P1 : M α
+  P2 : M α
+
+def nnashStep (sol : M α → M α → Option (M α)) (g : Nash α) (P1 P2 : M α) : Option (NashState α) :=
+  let v1 : M α := ident g.B1.nc
+  let v2 : M α := ident g.B2.nc
+  match sol (madd (mmul (mT g.B2) (mmul P2 g.B2)) g.Q2) v2,
+        sol (madd (mmul (mT g.B1) (mmul P1 g.B1)) g.Q1) v1 with
+  | some G2, some G1 =>
+    let H2 := mmul G2 (mmul (mT g.B2) P2)
+    let H1 := mmul G1 (mmul (mT g.B1) P1)
+    let L1 := madd (mmul H1 g.B2) (mmul G1 (mT g.M1))
+    let L2 := madd (mmul H2 g.B1) (mmul G2 (mT g.M2))
+    let F1left := msub v1 (mmul L1 L2)
+    let F1right := msub (madd (mmul H1 g.A) (mmul G1 (mT g.W1)))
+      (mmul L1 (madd (mmul H2 g.A) (mmul G2 (mT g.W2))))
+    match sol F1left F1right with
+    | none => none
+    | some F1 =>
+      let F2 := msub (madd (mmul H2 g.A) (mmul G2 (mT g.W2))) (mmul L2 F1)
+      let Lam1 := msub g.A (mmul g.B2 F2)
+      let Lam2 := msub g.A (mmul g.B1 F1)
+      let Pi1 := madd g.R1 (mmul (mT F2) (mmul g.S1 F2))
+      let Pi2 := madd g.R2 (mmul (mT F1) (mmul g.S2 F1))
+      let P1' := msub (madd (mmul (mT Lam1) (mmul P1 Lam1)) Pi1)
+        (mmul (msub (madd (mmul (mT Lam1) (mmul P1 g.B1)) g.W1) (mmul (mT F2) g.M1)) F1)
+      let P2' := msub (madd (mmul (mT Lam2) (mmul P2 Lam2)) Pi2)
+        (mmul (msub (madd (mmul (mT Lam2) (mmul P2 g.B2)) g.W2) (mmul (mT F1) g.M2)) F2)
+      some ⟨F1, F2, P1', P2'⟩
+  | _, _ => none
+
+/-- `k` passes of the loop from the state `s` (only `s.P1`, `s.P2` are read) -/
+def nnashIter (sol : M α → M α → Option (M α)) (g : Nash α) : Nat → NashState α → Option (NashState α)
+  | 0, s => some s
+  | k + 1, s =>
+    match nnashStep sol g s.P1 s.P2 with
+    | none => none
+    | some s' => nnashIter sol g k s'
+
+/-! ### Markov jump LQ -/
+
+/-- `lst[i]` with an empty matrix as default -/
+def nth (l : List (M α)) (i : Nat) : M α := l.getD i ⟨0, 0, #[]⟩
+
+/-- sum of matrices `f 0 + … + f (m-1)` starting from the `r × c` zero matrix (`sum1[:, :] = 0.`) -/
+def msum (r c m : Nat) (f : Nat → M α) : M α :=
+  (List.range m).foldl (fun acc j => madd acc (f j)) (zero r c)
+
+/-- a list of `Option`s to an `Option` of a list -/
+def allSome {β : Type} : List (Option β) → Option (List β)
+  | [] => some []
+  | none :: _ => none
+  | some a :: r => (allSome r).map (a :: ·)
+
+/-- _matrix_eqn.py 295-306: new `Ps1[i]` for regime `i` (regimes share `beta`; `Pi` is `m × m`) -/
+def markovStepI (sol : M α → M α → Option (M α)) (Pi : M α) (lqs : List (LQ α)) (beta : α)
+    (Ps : List (M α)) (i : Nat) : Option (M α) :=
+  let m := lqs.length
+  let lq := lqs.getD i ⟨nth [] 0, nth [] 0, nth [] 0, nth [] 0, nth [] 0, nth [] 0, 0⟩
+  let n := lq.R.nr
+  let terms := (List.range m).map fun j =>
+    let Pj := nth Ps j
+    match sol (madd lq.Q (smul beta (mmul (mmul (mT lq.B) Pj) lq.B)))
+              (madd (smul beta (mmul (mmul (mT lq.B) Pj) lq.A)) lq.N) with
+    | none => none
+    | some X =>
+      some (smul (beta * Pi.get i j) (mmul (mmul (mT lq.A) Pj) lq.A),
+            smul (Pi.get i j) (mmul (madd (smul beta (mmul (mmul (mT lq.A) Pj) lq.B)) (mT lq.N)) X))
+  match allSome terms with
+  | none => none
+  | some ts =>
+    let sum1 := msum n n m fun j => (ts.getD j (zero n n, zero n n)).1
+    let sum2 := msum n n m fun j => (ts.getD j (zero n n, zero n n)).2
+    some (msub (madd lq.R sum1) sum2)
+
+/-- one pass of the main loop over all regimes -/
+def markovStep (sol : M α → M α → Option (M α)) (Pi : M α) (lqs : List (LQ α)) (beta : α)
+    (Ps : List (M α)) : Option (List (M α)) :=
+  allSome ((List.range lqs.length).map (markovStepI sol Pi lqs beta Ps))
+
+/-- _lqcontrol.py 526-539: `Fs[i]` -/
+def markovF (sol : M α → M α → Option (M α)) (Pi : M α) (lqs : List (LQ α)) (beta : α)
+    (Ps : List (M α)) (i : Nat) : Option (M α) :=
+  let m := lqs.length
+  let lq := lqs.getD i ⟨nth [] 0, nth [] 0, nth [] 0, nth [] 0, nth [] 0, nth [] 0, 0⟩
+  let k := lq.Q.nr
+  let n := lq.R.nr
+  let sum1 := msum k k m fun j => smul (beta * Pi.get i j) (mmul (mmul (mT lq.B) (nth Ps j)) lq.B)
+  let sum2 := msum k n m fun j => smul (beta * Pi.get i j) (mmul (mmul (mT lq.B) (nth Ps j)) lq.A)
+  sol (madd lq.Q sum1) (madd sum2 lq.N)
+
+/-- line 537: `X[j, i] = trace(Ps[j] @ (C_i C_i'))` -/
+def markovX (lqs : List (LQ α)) (Ps : List (M α)) : M α :=
+  M.tab lqs.length lqs.length fun j i =>
+    let lq := lqs.getD i ⟨nth [] 0, nth [] 0, nth [] 0, nth [] 0, nth [] 0, nth [] 0, 0⟩
+    trace (mmul (nth Ps j) (mmul lq.C (mT lq.C)))
+
+/-- lines 541-542: `ds = solve(I - beta Pi, diag(beta Pi X))` as an `m × 1` matrix -/
+def markovD (sol : M α → M α → Option (M α)) (Pi : M α) (lqs : List (LQ α)) (beta : α)
+    (Ps : List (M α)) : Option (M α) :=
+  let m := lqs.length
+  let X := markovX lqs Ps
+  let PX := mmul (smul beta Pi) X
+  sol (msub (ident m) (smul beta Pi)) (M.tab m 1 fun i _ => PX.get i i)
+
+end generic
+
+/-! ### driver -/
+
+local instance : Zero Float := ⟨0.0⟩
+local instance : One Float := ⟨1.0⟩
+
+def matOf {β : Type} (rs : List (List β)) : M β := M.ofRows rs
+
+/-- all rows have the same positive length -/
+def rect {β : Type} (rs : List (List β)) : Bool :=
+  !rs.isEmpty && rs.all (fun r => r.length == (rs.headD []).length) && (rs.headD []).length > 0
+
+def shape {β : Type} (rs : List (List β)) (r c : Nat) : Bool :=
+  rect rs && rs.length == r && (rs.headD []).length == c
+
+/-- floor(q·2^96)/2^96, printed as `p/q` (exact for every dyadic value with ≤ 96 fractional bits) -/
+def showApprox (q : Rat) : String :=
+  let s : Nat := 2 ^ 96
+  let z : Int := (q.num * (s : Int)) / (q.den : Int)
+  showRat ((z : Rat) / (s : Rat))
+
+def showRatM (X : M Rat) : String := showMat showApprox X.toRows
+def showFloatM (X : M Float) : String := showMat showFloatBits X.toRows
+
+/-- the `k n j` shape checks NumPy would make -/
+def lqShapesOk {β : Type} (Q R A B C N : List (List β)) : Bool :=
+  let k := Q.length
+  let n := R.length
+  shape Q k k && shape R n n && shape A n n && shape B n k && rect C && C.length == n && shape N k n
+
+section io
+variable {β : Type} [Zero β] [One β] [Add β] [Sub β] [Mul β] [Div β] [Neg β] [BEq β]
+
+def mkLQ (Q R A B C N : Option (List (List β))) (b : Option β) : Option (LQ β) :=
+  match Q, R, A, B, C, N, b with
+  | some Q, some R, some A, some B, some C, some N, some b =>
+    if lqShapesOk Q R A B C N then some ⟨matOf Q, matOf R, matOf A, matOf B, matOf C, matOf N, b⟩ else none
+  | _, _, _, _, _, _, _ => none
+
+/-- parse the six matrices and `beta` of an LQ instance (keys `Q<sfx>`, … ) -/
+def parseLQ (pm : String → Option (List (List β))) (ps : String → Option β) (r : List String)
+    (sfx : String := "") : Option (LQ β) :=
+  let g (key : String) := (kv r (key ++ sfx)).bind pm
+  mkLQ (g "Q") (g "R") (g "A") (g "B") (g "C") (g "N") ((kv r "beta").bind ps)
+
+/-- a list of matrices: `m1|m2|…` -/
+def showMs (sm : M β → String) (l : List (M β)) : String :=
+  if l.isEmpty then "-" else "|".intercalate (l.map sm)
+
+def showUpd (sm : M β → String) (sd : β → String) : Option (M β × Val β) → String
+  | none => "ERR:LinAlgError"
+  | some (F, v) => s!"F={sm F} P={sm v.P} d={sd v.d}"
+
+def showTrace (sm : M β → String) (sd : β → String) : Option (List (M β × Val β)) → String
+  | none => "ERR:LinAlgError"
+  | some l => s!"F={showMs sm (l.map (·.1))} P={showMs sm (l.map (·.2.P))} d={showList sd (l.map (·.2.d))}"
+
+def showSeq (sm : M β → String) : SeqOut β → String
+  | .singular => "ERR:LinAlgError"
+  | .indexError => "ERR:IndexError"
+  | .ok xs us => s!"x={showMs sm xs} u={showMs sm us}"
+
+def showOptM (sm : M β → String) : Option (M β) → String
+  | none => "ERR:LinAlgError"
+  | some X => sm X
+
+/-- the operations shared by the `Rat` and the `Float` reading -/
+def handleG (pm : String → Option (List (List β))) (ps : String → Option β)
+    (sm : M β → String) (sd : β → String) (toks : List String) : String :=
+  let sol : M β → M β → Option (M β) := solve
+  match toks with
+  | "update" :: r =>
+    match parseLQ pm ps r, (kv r "P").bind pm, (kv r "d").bind ps with
+    | some lq, some P, some d =>
+      if shape P lq.R.nr lq.R.nr then showUpd sm sd (lqUpdate sol lq ⟨matOf P, d⟩) else "bad-op"
+    | _, _, _ => "bad-op"
+  | "trace" :: r =>
+    match parseLQ pm ps r, (kv r "Rf").bind pm, kvNat r "T" with
+    | some lq, some P, some T =>
+      if shape P lq.R.nr lq.R.nr && T ≤ 64 then showTrace sm sd (lqTrace sol lq T ⟨matOf P, 0⟩) else "bad-op"
+    | _, _, _ => "bad-op"
+  | "stationary" :: r =>
+    match parseLQ pm ps r, (kv r "P").bind pm with
+    | some lq, some P =>
+      if shape P lq.R.nr lq.R.nr then
+        match lqStationary sol lq (matOf P) with
+        | none => "ERR:LinAlgError"
+        | some (F, d) => s!"F={sm F} d={sd d}"
+      else "bad-op"
+    | _, _ => "bad-op"
+  | "seq" :: r =>
+    match parseLQ pm ps r, (kv r "Rf").bind pm, kvNat r "T", kvNat r "ts", (kv r "x0").bind pm, (kv r "W").bind pm with
+    | some lq, some P, some T, some ts, some x0, some W =>
+      if shape P lq.R.nr lq.R.nr && shape x0 lq.R.nr 1 && shape W lq.C.nc (horizon T ts + 1) && T ≠ 0 && T ≤ 64 then
+        showSeq sm (computeSequence sol lq (matOf P) T ts (matOf x0) (matOf W))
+      else "bad-op"
+    | _, _, _, _, _, _ => "bad-op"
+  | "seqinf" :: r =>
+    match parseLQ pm ps r, (kv r "F").bind pm, kvNat r "ts", (kv r "x0").bind pm, (kv r "W").bind pm with
+    | some lq, some F, some ts, some x0, some W =>
+      if shape F lq.Q.nr lq.R.nr && shape x0 lq.R.nr 1 && shape W lq.C.nc (horizon 0 ts + 1) && ts ≤ 200 then
+        showSeq sm (computeSequenceInf lq (matOf F) ts (matOf x0) (matOf W))
+      else "bad-op"
+    | _, _, _, _, _ => "bad-op"
+  | "rblqd" :: r =>
+    match (kv r "C").bind pm, (kv r "theta").bind ps, (kv r "P").bind pm with
+    | some C, some th, some P =>
+      if rect C && shape P C.length C.length then showOptM sm (rblqD sol (matOf C) th (matOf P)) else "bad-op"
+    | _, _, _ => "bad-op"
+  | "rblqb" :: r =>
+    match parseLQ pm ps r, (kv r "P").bind pm, kvNat r "pure" with
+    | some lq, some P, some pure =>
+      if shape P lq.R.nr lq.R.nr then
+        match rblqB sol lq (pure == 1) (matOf P) with
+        | none => "ERR:LinAlgError"
+        | some (F, P') => s!"F={sm F} P={sm P'}"
+      else "bad-op"
+    | _, _, _ => "bad-op"
+  | "rblqstep" :: r =>
+    match parseLQ pm ps r, (kv r "theta").bind ps, (kv r "P").bind pm, kvNat r "pure" with
+    | some lq, some th, some P, some pure =>
+      if shape P lq.R.nr lq.R.nr then
+        match rblqStep sol lq th (pure == 1) (matOf P) with
+        | none => "ERR:LinAlgError"
+        | some (F, P') =>
+          match rblqK sol lq th P' F with
+          | none => "ERR:LinAlgError"
+          | some K => s!"F={sm F} P={sm P'} K={sm K}"
+      else "bad-op"
+    | _, _, _, _ => "bad-op"
+  | "rblqstack" :: r =>
+    match parseLQ pm ps r, (kv r "theta").bind ps, (kv r "P").bind pm with
+    | some lq, some th, some P =>
+      if shape P lq.R.nr lq.R.nr then
+        match lqUpdate sol (rblqStack lq th) ⟨matOf P, 0⟩ with
+        | none => "ERR:LinAlgError"
+        | some (F, v) => s!"F={sm F} P={sm v.P}"
+      else "bad-op"
+    | _, _, _ => "bad-op"
+  | "nnash" :: r =>
+    let g (key : String) := (kv r key).bind pm
+    match g "A", g "B1", g "B2", g "R1", g "R2", g "Q1", g "Q2", g "S1", g "S2", g "W1", g "W2",
+          g "M1", g "M2", g "P1", g "P2", kvNat r "iters" with
+    | some A, some B1, some B2, some R1, some R2, some Q1, some Q2, some S1, some S2, some W1, some W2,
+      some M1, some M2, some P1, some P2, some iters =>
+      let n := A.length
+      let k1 := Q1.length
+      let k2 := Q2.length
+      if shape A n n && shape B1 n k1 && shape B2 n k2 && shape R1 n n && shape R2 n n && shape Q1 k1 k1 &&
+         shape Q2 k2 k2 && shape S1 k2 k2 && shape S2 k1 k1 && shape W1 n k1 && shape W2 n k2 &&
+         shape M1 k2 k1 && shape M2 k1 k2 && shape P1 n n && shape P2 n n && 1 ≤ iters && iters ≤ 16 then
+        match nnashIter sol ⟨matOf A, matOf B1, matOf B2, matOf R1, matOf R2, matOf Q1, matOf Q2, matOf S1,
+            matOf S2, matOf W1, matOf W2, matOf M1, matOf M2⟩ iters ⟨zero 0 0, zero 0 0, matOf P1, matOf P2⟩ with
+        | none => "ERR:LinAlgError"
+        | some s => s!"F1={sm s.F1} F2={sm s.F2} P1={sm s.P1} P2={sm s.P2}"
+      else "bad-op"
+    | _, _, _, _, _, _, _, _, _, _, _, _, _, _, _, _ => "bad-op"
+  | "markov" :: r =>
+    -- regimes are given as `m=<count>` and keys `Q0,R0,A0,B0,C0,N0,P0, Q1,…`; `Pi` is m×m
+    match kvNat r "m", (kv r "Pi").bind pm, (kv r "beta").bind ps with
+    | some m, some Pi, some b =>
+      let regs := (List.range m).map fun i =>
+        match parseLQ pm ps r (toString i), (kv r ("P" ++ toString i)).bind pm with
+        | some lq, some P => if shape P lq.R.nr lq.R.nr then some (lq, matOf P) else none
+        | _, _ => none
+      match allSome regs with
+      | none => "bad-op"
+      | some rl =>
+        if shape Pi m m && m ≠ 0 && m ≤ 6 then
+          let lqs := rl.map (·.1)
+          let Ps := rl.map (·.2)
+          match markovStep sol (matOf Pi) lqs b Ps,
+                allSome ((List.range m).map (markovF sol (matOf Pi) lqs b Ps)),
+                markovD sol (matOf Pi) lqs b Ps with
+          | some Ps', some Fs, some ds =>
+            s!"Ps={showMs sm Ps'} Fs={showMs sm Fs} ds={sm ds}"
+          | _, _, _ => "ERR:LinAlgError"
+        else "bad-op"
+    | _, _, _ => "bad-op"
+  | _ => "bad-op"
+
+end io
+
+def handle (toks : List String) : String :=
+  match toks with
+  | "horizon" :: r =>
+    match kvNat r "T", kvNat r "ts" with
+    | some T, some ts => toString (horizon T ts)
+    | _, _ => "bad-op"
+  | "rat" :: r => handleG (parseMat? parseRat?) parseRat? showRatM showApprox r
+  | "float" :: r => handleG (parseMat? parseFloat?) parseFloat? showFloatM showFloatBits r
+  | _ => "bad-op"
 
 end QE.C07
